@@ -455,6 +455,18 @@ pub fn replay<P: Prop>(verif_dir: &str, file: &str, expect: bool) -> i32 {
     }
 }
 
+/// `dsim show-workload <id> <seed> <tier> <idx>`: print the generated workload of one run
+pub fn show_workload<P: Prop>(verif_seed: u64, thorough: bool, idx: u64) -> i32 {
+    let root = sandbox_init();
+    P::init_process();
+    let rs = run_seed(verif_seed, idx);
+    let mut rng = Rng::new(mix(rs, 1));
+    let wl = P::generate(&mut rng, thorough, idx);
+    println!("{}", serde_json::to_string_pretty(&wl).unwrap());
+    sandbox_done(&root);
+    0
+}
+
 /// `dsim minimise <file>`: shrink a replay file (any violation it produces), write <file>.min.json
 pub fn minimise_file<P: Prop>(verif_dir: &str, file: &str, budget_s: u64) -> i32 {
     let known = load_known(verif_dir);
